@@ -21,6 +21,8 @@ from bibtexparser.middlewares.enclosing import RemoveEnclosingMiddleware
 from bibtexparser.middlewares.interpolate import ResolveStringReferencesMiddleware
 
 KS = "aAb-"
+FSEP = [" = "]      # text between a field key and its value (a task may put the value on the next line)
+KSX = [KS]          # alphabet of the name holes (a task may use letters that spell month abbreviations)
 SVALS = ["{v1}", "\"v2\" # x", "w3", "{e=f=g}"]      # the last one holds the separator character of the block head
 SHAPES = ("bare", "braced", "quoted", "concat", "number")
 
@@ -74,7 +76,7 @@ def build(eng, n_before, n_after, shapes, kl, second=None, pfx="t"):
     def hole():
         a = len(cs)
         for _ in range(kl):
-            cs.append(eng.sym_char(f"{pfx}{len(cs)}", KS))
+            cs.append(eng.sym_char(f"{pfx}{len(cs)}", KSX[0]))
         return mk(cs[a:])
 
     snames = []
@@ -102,7 +104,7 @@ def build(eng, n_before, n_after, shapes, kl, second=None, pfx="t"):
       fields = []
       own = []
       for j, sh in enumerate(shapes_):
-        lit(f", {fpre}{j} = ")
+        lit(f", {fpre}{j}" + FSEP[0])
         if sh == "bare":
             nm = hole(); own.append(nm)
         elif sh == "braced":
@@ -184,8 +186,10 @@ def native(text, snames, fields, own, order, reuse_after=None, ekeys=()):
     return all(bool(c) for c in conds), exp, [(f.key, f.value) for b in lib.blocks if isinstance(b, M.Entry) for f in b.fields]
 
 
-def task(n_before, n_after, shapes, kl, label, second=None, earlier=None, crlf=False, hw="", reuse=False, keyhole=False):
+def task(n_before, n_after, shapes, kl, label, second=None, earlier=None, crlf=False, hw="", reuse=False, keyhole=False, fsep=" = ", ksx=KS):
     KEYHOLE[0] = keyhole
+    FSEP[0] = fsep
+    KSX[0] = ksx
     NL[0] = "\r\n" if crlf else "\n"
     HW[0] = hw
     eng = Engine()
@@ -263,6 +267,16 @@ def main():
             for hw in (" ", "\t", "  "):
                 name = f"hws{len(hw)}{'t' if hw == chr(9) else ''}-b{nb}a{na}-" + "+".join(shapes)
                 chk.add_task(name, task, n_before=nb, n_after=na, shapes=shapes, kl=1, label=name, hw=hw)
+    # the value on the line after the '=' (legal layout; what a line-based pre-filter would miss)
+    for nb, na in ((1, 0), (0, 1)):
+        for shapes in (("bare",), ("braced", "bare"), ("concat",), ("bare", "bare")):
+            name = f"fsepnl-b{nb}a{na}-" + "+".join(shapes)
+            chk.add_task(name, task, n_before=nb, n_after=na, shapes=shapes, kl=1, label=name, fsep=" =\n    ")
+    # names of three letters over {m,a,y,D,E,c}: among them the month abbreviations 'may' and (other case) 'DEc'
+    chk.bounds["month-like names"] = "names of 3 characters over {m,a,y,D,E,c} in single-field templates (a @string may be called 'may')"
+    for nb, na, shapes in ((1, 0, ("bare",)), (0, 1, ("bare",)), (1, 0, ("concat",)), (1, 0, ("braced",))):
+        name = f"months-b{nb}a{na}-" + "+".join(shapes)
+        chk.add_task(name, task, n_before=nb, n_after=na, shapes=shapes, kl=3, label=name, ksx="mayDEc")
     # a document parsed after another one in the same process (no state may survive between calls)
     for nb, na in ((1, 0), (0, 1), (0, 0), (2, 0)):
         for enb, ena in ((1, 0), (0, 1)):
